@@ -12,6 +12,7 @@ import PeliteModel.Driver.Exports
 import PeliteModel.Driver.Json
 import PeliteModel.Driver.Dirs
 import PeliteModel.Driver.Resources
+import PeliteModel.Driver.PatternSem
 -- IMPORT-MARKER (add `import PeliteModel.Driver.<M>` above this line)
 /-! `model`: the line-protocol driver.  One answer line per operation line; the part after ` ## `
 is the executable specification's answer and whether the input meets the theorem's hypotheses. -/
@@ -32,6 +33,7 @@ def handlers : List Handler := [
   , dispatchJson
   , dispatchDirs
   , dispatchResources
+  , dispatchPatternSem
   -- HANDLER-MARKER (add `, dispatch<M>` above this line)
   ]
 
